@@ -542,15 +542,18 @@ int main(void) {
 				if (!strncmp(tok[2], "pub:", 4)) {
 					KSI_PublicationRecord *pr = NULL; KSI_PublicationData *pd = NULL; KSI_Integer *t = NULL; KSI_DataHash *h = NULL; size_t il; unsigned char *ib;
 					char *c2 = strchr(tok[2] + 4, ':'); *c2++ = 0; ib = hx_dec(c2, &il);
-					KSI_PublicationRecord_new(ctx, &pr); KSI_PublicationData_new(ctx, &pd); KSI_Integer_new(ctx, strtoull(tok[2] + 4, NULL, 10), &t);
-					rc = KSI_DataHash_fromImprint(ctx, ib, il, &h); free(ib);
-					KSI_PublicationData_setTime(pd, t); KSI_PublicationData_setImprint(pd, h); KSI_PublicationRecord_setPublishedData(pr, pd);
+					/* the harness's own set-up allocations are checked too: under fault injection a failed one must not silently change the request */
+					rc = KSI_PublicationRecord_new(ctx, &pr); if (rc == KSI_OK) rc = KSI_PublicationData_new(ctx, &pd); if (rc == KSI_OK) rc = KSI_Integer_new(ctx, strtoull(tok[2] + 4, NULL, 10), &t);
+					if (rc == KSI_OK) rc = KSI_DataHash_fromImprint(ctx, ib, il, &h); free(ib);
+					if (rc == KSI_OK) { KSI_PublicationData_setTime(pd, t); KSI_PublicationData_setImprint(pd, h); KSI_PublicationRecord_setPublishedData(pr, pd); }
+					else { KSI_Integer_free(t); KSI_DataHash_free(h); KSI_PublicationData_free(pd); }
 					if (rc == KSI_OK) rc = KSI_Signature_extend(sig, ctx, pr, &ext);
 					KSI_PublicationRecord_free(pr);
 				} else {
 					KSI_Integer *to = NULL;
-					if (strcmp(tok[2], "head")) KSI_Integer_new(ctx, strtoull(tok[2], NULL, 10), &to);
-					rc = KSI_Signature_extendTo(sig, ctx, to, &ext);
+					rc = KSI_OK;
+					if (strcmp(tok[2], "head")) rc = KSI_Integer_new(ctx, strtoull(tok[2], NULL, 10), &to);
+					if (rc == KSI_OK) rc = KSI_Signature_extendTo(sig, ctx, to, &ext);
 					KSI_Integer_free(to);
 				}
 				KSI_Signature_serialize(sig, &after, &al);
